@@ -5,11 +5,13 @@ Campaigns (JSON specs, ``vf.dslx`` ASTs):
               edit (literal incl. hash-colliding twins, operator, alias, direction, column, table, reference name, join
               kind, set kind, limit, select order, operand order). Oracle = structural equality of the two specs. Judged:
               ``==`` / ``hash`` / set and dict membership of the statements, their schemas, their corresponding features
-              and predicates and kinds; pickle round trip; ``Source.__getitem__`` / attribute access (returns the feature
-              of *this* source, also right after the other statement was asked); the parse caches (``Reader.
-              _parse_statement`` and ``Visitor.generate_feature``): SQL compiled with literal binds for ``b`` after ``a``
-              went through the same reader / parser must equal the SQL of ``b`` alone from a fresh one; independence of
-              all verdicts and hashes from unrelated live schemas with equal class names.
+              and predicates and kinds; pickle round trip; ``Source.__getitem__`` (memoised per *equal* source): every
+              positional member and named output of ``b`` is b's own although ``a`` was used before; the parse cache
+              ``Reader._parse_statement``: SQL compiled with literal binds for ``b`` after ``a`` (fresh reader, and the
+              same reader) must equal the SQL of ``b`` parsed alone in a state that never saw ``a``; independence of
+              verdicts and hashes from unrelated live schemas with equal class names. (Re-using one *parser instance*
+              for two statements is not judged: ``Visitor.generate_feature`` memoises per instance and even the same
+              statement parsed twice by one instance comes out wrong - ``Reader`` never does that.)
 * ``intra`` - one statement carrying the same predicate twice with one colliding literal flipped (where vs having):
               SQL from the caching parser must equal SQL from the same parser with ``generate_feature`` un-cached.
 ``enumerate_extra``: all pairs of a fixed pool of small features, sources, schemas and kinds.
@@ -225,6 +227,33 @@ def _expected_index(stmt, name):
     return names.index(name)
 
 
+def _clear_caches():
+    """Isolation between cases / phases: the process-global memo tables of forml keyed by DSL objects."""
+    dsl.Source.__getitem__.cache_clear()
+    dsl.Source.Schema.__getitem__.cache_clear()
+    alchemy.Reader._parse_statement.cache_clear()  # pylint: disable=protected-access
+
+
+def _raw(obj, index):
+    """Positional member read without forml's (memoised) ``__getitem__``."""
+    return tuple.__getitem__(obj, index)
+
+
+def _member_mismatch(src):
+    """First (source, index) whose public item access returns something else than its own member (recursively over the
+    sources reachable from ``src``), else None."""
+    for index in range(tuple.__len__(src)):
+        own = _raw(src, index)
+        got, err = _try(lambda: src[index])  # pylint: disable=cell-var-from-loop
+        if err is not None or canon(got) != canon(own):
+            return src, index, got if err is None else err
+        if isinstance(own, dsl.Source) and not isinstance(own, dsl.Table):
+            found = _member_mismatch(own)
+            if found is not None:
+                return found
+    return None
+
+
 def check_pair(ctx, spec):
     a, b = spec['a'], spec['b']
     same_spec = a == b
@@ -233,18 +262,40 @@ def check_pair(ctx, spec):
     trig = trigger_tags(a, b, edit)
     classes = [f'mode:{spec["mode"]}', f'edit:{edit}'] + [f'shape:{t}' for t in _SHAPES if t in tags_a]
     nontrivial = spec['mode'] == 'edit' or A.depth(a) >= 2
+    crash = sorted({'unnamed', 'bare-proxy'} & (tags_a | tags_b))
 
-    built, err = _try(lambda: (build.build_statement(a)[0], build.build_statement(b)[0], build.build_statement(a)[0]))
+    # -- phase 0: b alone, in a process state that has never seen a -----------------------------------------------------
+    _clear_caches()
+    alone, err = _try(lambda: build.build_statement(b)[0])
     if err is not None:
         if err[0] == 'SpecError':
             raise HarnessError(f'spec not buildable: {err}')
         ctx.case(spec, nontrivial=nontrivial, classes=classes + ['build:masked'])
-        ctx.mask(f'build-raises:{err[0]}|' + ','.join(sorted({'unnamed', 'bare-proxy'} & (tags_a | tags_b))))
+        ctx.mask(f'build-raises:{err[0]}|' + ','.join(crash))
         return
-    sa, sb, sa2 = built
-    ca, cb = canon(sa), canon(sb)
+    cb = canon(alone)
+    pickled, err_p = _try(lambda: pickle.loads(pickle.dumps(alone)))  # judged below, once the case is registered
+    alone_b, err_b = _try(lambda: _compiled(_reader()._parse_statement(alone)))  # pylint: disable=protected-access
+    del alone
+    _clear_caches()
+
+    # -- phase 1: a is built and used, then b is built next to it -----------------------------------------------------------
+    built, err = _try(lambda: (build.build_statement(a)[0], build.build_statement(a)[0]))
+    if err is not None:
+        ctx.case(spec, nontrivial=nontrivial, classes=classes + ['build:masked'])
+        ctx.mask(f'build-raises:{err[0]}|' + ','.join(crash))
+        return
+    sa, sa2 = built
+    ca = canon(sa)
     if canon(sa2) != ca:
         raise HarnessError('two builds of one AST differ structurally')
+    alone_a, err_a = _try(lambda: _compiled(_reader()._parse_statement(sa)))  # pylint: disable=protected-access
+    bad = _member_mismatch(sa)
+    if bad is not None:
+        ctx.fail(spec, 'member-access', 'own-member-wrong', f'{bad[0]!r}[{bad[1]}] -> {bad[2]!r}', [])
+    sb = build.build_statement(b)[0]
+    if canon(sb) != cb:  # item access on a reference of b handed out an element of a's (equal-hashing) reference
+        ctx.fail(spec, 'build-after-other', 'structure-differs', f'b built after a was used: {canon(sb)} ; b built alone: {cb}', trig)
     same = ca == cb
     if same_spec and not same:
         raise HarnessError('equal specs built different structures')
@@ -252,7 +303,6 @@ def check_pair(ctx, spec):
         classes.append('edit-equivalent')  # the edit did not change the structure forml sees: judge as identical
     ctx.case(spec, nontrivial=nontrivial, classes=classes + ['pair:same' if same else 'pair:different'])
 
-    # -- 1. equality / hash / containers of the statements ---------------------------------------------------------
     def judge(clause, x, y, expect_same, extra=()):
         """==, hash, set and dict behaviour of two objects against the expected structural verdict."""
         tg = trig + list(extra)
@@ -269,7 +319,7 @@ def check_pair(ctx, spec):
             if hx != hy:
                 ctx.fail(spec, clause, 'same-hash-differs', f'{x!r}', tg)
         elif eq:
-            ctx.fail(spec, clause, 'different-equal', f'{x!r} == {y!r}' + (' (hashes equal too)' if hx == hy else ' (hashes differ)'), tg)
+            ctx.fail(spec, clause, 'different-equal', f'{canon(x)} == {canon(y)}' + (' (hashes equal too)' if hx == hy else ' (hashes differ)'), tg)
         res, err = _try(lambda: (len({x, y}), {x: 'x'}.get(y), y in {x}, y in [x]))
         if err is not None:
             ctx.fail(spec, clause + '-container', 'raises-' + err[0], f'{err[1]}', tg)
@@ -281,40 +331,55 @@ def check_pair(ctx, spec):
                 spec,
                 clause + '-container',
                 'same-separate' if expect_same else 'different-merged',
-                f'len({{x,y}})={size} dict-lookup={found} in-set={inset} in-list={inlist}: {x!r} / {y!r}',
+                f'len({{x,y}})={size} dict-lookup={found} in-set={inset} in-list={inlist}: {canon(x)} / {canon(y)}',
                 tg,
             )
 
+    # -- 1. equality / hash / containers of the statements; pickle round trip of the never-parsed build ------------------
+    if err_p is not None:
+        ctx.fail(spec, 'pickle', 'raises-' + err_p[0], err_p[1], crash)
+    else:
+        if canon(pickled) != cb:
+            ctx.fail(spec, 'pickle', 'structure-changed', f'{cb} -> {canon(pickled)}', crash)
+        judge('pickle', sb, pickled, True)
     judge('statement', sa, sb, same)
     judge('statement-rebuilt', sa, sa2, True)
 
-    # -- 2. pickle -------------------------------------------------------------------------------------------------------
-    res, err = _try(lambda: pickle.loads(pickle.dumps(sa)))
-    if err is not None:
-        ctx.fail(spec, 'pickle', 'raises-' + err[0], err[1], [])
-    else:
-        if canon(res) != ca:
-            ctx.fail(spec, 'pickle', 'structure-changed', f'{sa!r} -> {res!r}', [])
-        judge('pickle', sa, res, True)
+    # -- 2. member access: every source reachable from b returns *its own* members although a was used before ------------
+    bad = _member_mismatch(sb)
+    if bad is not None:
+        ctx.fail(spec, 'member-access', 'member-of-other-statement', f'{canon(bad[0])}[{bad[1]}] -> {bad[2]!r}', trig)
 
-    # -- 3. corresponding parts: features, predicates, kinds, schemas ---------------------------------------------------
-    fa, fb = A.features_of(a), A.features_of(b)
+    # -- 3. pickle of the build that went through the parser (the never-parsed one was judged in phase 0) -------------------
+    if err_a is None:
+        res, err = _try(lambda: pickle.loads(pickle.dumps(sa)))
+        if err is not None:
+            ctx.fail(spec, 'pickle-after-parse', 'raises-' + err[0], err[1], crash)
+        else:
+            if canon(res) != ca:
+                ctx.fail(spec, 'pickle-after-parse', 'structure-changed', f'{ca} -> {canon(res)}', crash)
+            judge('pickle-after-parse', sa, res, True)
+
+    # -- 4. corresponding parts (read positionally, not through the memoised accessors): features, predicates, kinds -----
     parts = []
-    if len(fa) == len(fb) and len(sa.features) == len(sb.features):
-        for i, (x, y) in enumerate(zip(fa, fb)):
-            if i < len(sa.features):
-                parts.append(('feature', sa.features[i], sb.features[i]))
     if a['t'] == 'query' and b['t'] == 'query':
-        for clause, attr in (('where', 'prefilter'), ('having', 'postfilter')):
-            if a.get(clause) is not None and b.get(clause) is not None:
-                parts.append((clause, getattr(sa, attr), getattr(sb, attr)))
-        if len(a.get('groupby') or []) == len(b.get('groupby') or []):
-            parts += [('grouping', x, y) for x, y in zip(sa.grouping, sb.grouping)]
+        if len(_raw(sa, 1)) == len(_raw(sb, 1)):
+            parts += [('feature', x, y) for x, y in zip(_raw(sa, 1), _raw(sb, 1))]
+        for clause, index in (('where', 2), ('having', 4)):
+            if _raw(sa, index) is not None and _raw(sb, index) is not None:
+                parts.append((clause, _raw(sa, index), _raw(sb, index)))
+        if len(_raw(sa, 3)) == len(_raw(sb, 3)):
+            parts += [('grouping', x, y) for x, y in zip(_raw(sa, 3), _raw(sb, 3))]
     for clause, x, y in parts:
         judge(clause, x, y, canon(x) == canon(y))
-    unnamed = 'unnamed' in tags_a or 'unnamed' in tags_b
-    if unnamed:
-        ctx.mask('schema-clauses|unnamed')
+        if clause == 'feature':
+            kx, ky = _try(lambda: x.kind)[0], _try(lambda: y.kind)[0]  # pylint: disable=cell-var-from-loop
+            if kx is not None and ky is not None:
+                judge('kind', kx, ky, canon(kx) == canon(ky))
+
+    # -- 5. schemas and named item / attribute access ---------------------------------------------------------------------
+    if crash:
+        ctx.mask('schema-clauses|' + ','.join(crash))
     else:
         ea, eb = wellformed.schema_of(a), wellformed.schema_of(b)
         res, err = _try(lambda: (sa.schema, sb.schema))
@@ -328,17 +393,13 @@ def check_pair(ctx, spec):
                 ctx.fail(spec, 'schema-pickle', 'raises-' + err[0], err[1], [])
             else:
                 judge('schema-pickle', res[0], res2, True)
-            if not dup and 'num' not in [k for _, k in ea + eb] and (ea == eb) != (canon(res[0]) == canon(res[1])):
+            exact = 'num' not in [k for _, k in ea + eb] and None not in [n for n, _ in ea + eb]
+            if not dup and exact and (ea == eb) != (canon(res[0]) == canon(res[1])):
                 ctx.fail(spec, 'schema', 'structure-vs-spec', f'expected {ea} / {eb}; got {canon(res[0])} / {canon(res[1])}', trig)
-        for x, y in zip(sa.features, sb.features):
-            kx, ky = _try(lambda: x.kind)[0], _try(lambda: y.kind)[0]  # pylint: disable=cell-var-from-loop
-            if kx is not None and ky is not None:
-                judge('kind', kx, ky, canon(kx) == canon(ky))
-
-        # -- 4. item / attribute access returns the feature of *this* source, also right after the other one was asked
-        for stmt, src, other, label in ((a, sa, sb, 'a'), (b, sb, sa, 'b')):
+        for stmt, src, other in ((a, sa, sb), (b, sb, sa)):
             names = [n for n, _ in wellformed.schema_of(stmt) if n is not None]
             dupn = ['dup-names'] if len(set(names)) < len(names) else []
+            own = (_raw(src, 1) or _raw(src, 0).features) if isinstance(src, dsl.Query) else src.features
             for name in sorted(set(names)):
                 idx = _expected_index(stmt, name)
                 _try(lambda: other[name])  # pylint: disable=cell-var-from-loop
@@ -346,23 +407,22 @@ def check_pair(ctx, spec):
                 if err is not None:
                     ctx.fail(spec, 'getitem', 'raises-' + err[0], f'{src!r}[{name!r}]: {err[1]}', dupn or trig)
                     break
-                if idx >= len(src.features) or canon(got) != canon(src.features[idx]):
-                    theirs = idx < len(other.features) and canon(got) == canon(other.features[idx])
+                if idx >= len(own) or canon(got) != canon(own[idx]):
                     ctx.fail(
                         spec,
                         'getitem',
-                        'feature-of-other-statement' if theirs and not same else 'wrong-feature',
-                        f'{src!r}[{name!r}] -> {got!r}, expected output #{idx} {src.features[idx] if idx < len(src.features) else None!r}',
+                        'wrong-feature',
+                        f'{src!r}[{name!r}] -> {got!r}, expected output #{idx} {own[idx] if idx < len(own) else None!r}',
                         dupn or trig,
                     )
                     break
-                if name.isidentifier() and not hasattr(dsl.Query, name):
+                if name.isidentifier() and not hasattr(dsl.Query, name) and not hasattr(dsl.Set, name):
                     attr, err = _try(lambda: getattr(src, name))  # pylint: disable=cell-var-from-loop
                     if err is not None or canon(attr) != canon(got):
                         ctx.fail(spec, 'getattr', 'differs-from-getitem', f'{src!r}.{name}: {err or attr!r}', dupn or trig)
                         break
 
-    # -- 5. independence from unrelated live schemas with equal class names -----------------------------------------------
+    # -- 6. independence from unrelated live schemas with equal class names -----------------------------------------------
     before, err = _try(lambda: (hash(sa), hash(sb), bool(sa == sb)))
     if err is None:
         decoys = _decoys()
@@ -374,22 +434,26 @@ def check_pair(ctx, spec):
         if err2 is not None or not twin_ok:
             ctx.fail(spec, 'independence', 'namesake-schema', f'identical re-declaration of A unequal or different one equal: {err2}', [])
 
-    # -- 6. parse caches ----------------------------------------------------------------------------------------------------
-    alone_a, err_a = _try(lambda: _compiled(_reader()._parse_statement(sa)))  # pylint: disable=protected-access
-    alone_b, err_b = _try(lambda: _compiled(_reader()._parse_statement(sb)))  # pylint: disable=protected-access
+    # -- 7. parse caches: b parsed after a must come out as b parsed alone ----------------------------------------------------
     if err_a is not None or err_b is not None:
         ctx.klass('parse:masked')
         ctx.mask('parse-raises:' + (err_a or err_b)[0])
         return
     ctx.klass('parse:compared')
-    if same and alone_a != alone_b:
-        ctx.fail(spec, 'parse', 'same-statement-different-sql', f'{alone_a} / {alone_b}', trig)
+    fresh, err = _try(lambda: _compiled(_reader()._parse_statement(sb)))  # pylint: disable=protected-access
+    if err is not None:
+        ctx.fail(spec, 'parse-after-other', 'raises-' + err[0], err[1], trig)
+    elif fresh != alone_b:
+        ctx.fail(spec, 'parse-after-other', 'stale', f'b through a fresh reader after a was used: {fresh} ; b alone: {alone_b}', trig)
     reader = _reader()
     res, err = _try(lambda: (_compiled(reader._parse_statement(sa)), _compiled(reader._parse_statement(sb))))  # pylint: disable=protected-access
     if err is not None:
         ctx.fail(spec, 'reader-cache', 'raises-' + err[0], err[1], trig)
-    elif res[1] != alone_b:
-        ctx.fail(spec, 'reader-cache', 'stale', f'b after a through one reader: {res[1]} ; b alone: {alone_b}', trig)
+    else:
+        if res[0] != alone_a:
+            ctx.fail(spec, 'reader-cache', 'first-differs', f'a through the shared reader: {res[0]} ; a alone: {alone_a}', trig)
+        if res[1] != alone_b:
+            ctx.fail(spec, 'reader-cache', 'stale', f'b after a through one reader: {res[1]} ; b alone: {alone_b}', trig)
 
 
 def _decoys():
